@@ -194,7 +194,7 @@ def cases(tier, seed):
             fn = rnd.choice([5, 6, 8, 9] if big else [5, 6]) if extra.get("shared_grid") else None
             c = {"model": model, "dom": _size_geom(dt, rnd, big, fn), "ran": ("same" if rt == "same" else _size_geom(rt, rnd, big, fn)),
                  "strip": rnd.random() < 0.35, "carrier": rnd.choice(["same_obj", "equal_copy"]),
-                 "argname": rnd.choice(["x", "x", "theta"]), "Ns": rnd.randint(1, 6 if thorough else 4), "v": v}
+                 "cstyle": rnd.choice(_CSTYLES), "argname": rnd.choice(["x", "x", "theta"]), "Ns": rnd.randint(1, 6 if thorough else 4), "v": v}
             c.update(extra)
             if model in ("lin_matrix", "lin_callable") and not extra.get("dist"):
                 c["opscale"] = rnd.choice([1.0, 1.0, 1e-10, 1e10])      # extreme but legal operator magnitudes
@@ -353,6 +353,69 @@ def _fill_arrays(spec, rs):
     elif spec["kind"] == "mapped":
         _fill_arrays(spec["inner"], rs)
 
+# ---- the callables of a MappedGeometry in the forms users write them
+_CSTYLES = ("function", "bound", "partial", "callable", "ufunc")
+_CSTYLE = "function"      # style of the current case
+_SHARE = {}               # objects shared by the geometries of one case (the same transform object / partial used twice)
+
+def _apply_named(name, which, x):
+    return R.MAPS[name][which](x)
+
+def _mapped_gradient(name, inner_ref, strip, direction, wrt):
+    # the way the test-suite writes it: derivative of the map at the inner function value, times the direction
+    _rec("geom", direction, wrt)
+    u = inner_ref.par2fun(np.asarray(wrt, dtype=float))
+    d = np.asarray(direction, dtype=float) if strip else direction
+    return inner_ref.dfun(np.asarray(wrt, dtype=float)).T @ (R.MAPS[name][2](u) * d).reshape(-1)
+
+class _Transform:
+    """one transform object whose bound methods serve as map / imap / gradient"""
+    def __init__(self, name, inner_ref, strip):
+        self.name, self.inner_ref, self.strip = name, inner_ref, strip
+    def to_function(self, x):
+        return R.MAPS[self.name][0](x)
+    def to_parameter(self, y):
+        return R.MAPS[self.name][1](y)
+    def gradient(self, direction, wrt):
+        return _mapped_gradient(self.name, self.inner_ref, self.strip, direction, wrt)
+
+class _CallableMap:
+    """a callable class instance; two instances describing the same map are equal (==) but not identical"""
+    def __init__(self, name, which, inner_ref=None, strip=False):
+        self.key = (name, which, id(inner_ref), strip)
+        self.name, self.which, self.inner_ref, self.strip = name, which, inner_ref, strip
+    def __call__(self, *a):
+        if self.which == "grad":
+            return _mapped_gradient(self.name, self.inner_ref, self.strip, *a)
+        return R.MAPS[self.name][self.which](*a)
+    def __eq__(self, other):
+        return type(other) is type(self) and other.key == self.key
+    def __hash__(self):
+        return hash(self.key)
+
+def _map_callables(spec, ref, strip):
+    """(map, imap, gradient) of a MappedGeometry spec in the callable style of the current case"""
+    import functools
+    name, style = spec["map"], _CSTYLE
+    key = (id(ref), style)
+    if style == "ufunc" and name not in ("exp", "sinh"):
+        style = "function"
+    if style == "bound":
+        t = _SHARE.setdefault(key, _Transform(name, ref.inner, strip))
+        return t.to_function, t.to_parameter, t.gradient
+    if style == "partial":
+        return _SHARE.setdefault(key, (functools.partial(_apply_named, name, 0), functools.partial(_apply_named, name, 1),
+                                       functools.partial(_mapped_gradient, name, ref.inner, strip)))
+    if style == "callable":
+        return _CallableMap(name, 0), _CallableMap(name, 1), _CallableMap(name, "grad", ref.inner, strip)
+    inner_ref = ref.inner
+    def geom_gradient(direction, wrt):
+        return _mapped_gradient(name, inner_ref, strip, direction, wrt)
+    ggrad = _SHARE.setdefault((id(ref), "fgrad"), geom_gradient)     # the same function object wherever this geometry is rebuilt
+    if style == "ufunc":
+        return {"exp": (np.exp, np.log), "sinh": (np.sinh, np.arcsinh)}[name] + (ggrad,)
+    return R.MAPS[name][0], R.MAPS[name][1], ggrad
+
 def build_geom(spec, ref, strip):
     """the real cuqi geometry (or the int/tuple shorthand) for a spec; `ref` is the reference geometry of the same spec"""
     import cuqi
@@ -385,17 +448,10 @@ def build_geom(spec, ref, strip):
         return g
     if k == "mapped":
         inner = build_geom(spec["inner"], ref.inner, strip)
-        fmap, fimap, dmap = R.MAPS[spec["map"]]
+        fmap, fimap, ggrad = _map_callables(spec, ref, strip)
         g = G.MappedGeometry(inner, fmap, fimap if spec.get("imap", True) else None)
         if spec.get("gradient"):
-            inner_ref = ref.inner
-            def geom_gradient(direction, wrt):
-                _rec("geom", direction, wrt)
-                # the way the test-suite writes it: derivative of the map at the inner function value, times the direction
-                u = inner_ref.par2fun(np.asarray(wrt, dtype=float))
-                d = np.asarray(direction, dtype=float) if strip else direction
-                return inner_ref.dfun(np.asarray(wrt, dtype=float)).T @ (dmap(u) * d).reshape(-1)
-            g.gradient = geom_gradient
+            g.gradient = ggrad
         return g
     if k == "user":
         return C["UserGeom"](ref, strip)
@@ -420,6 +476,9 @@ def build(case, rs):
     """returns Built(model, ref, dom_obj, ran_obj, has_grad, ...)"""
     import cuqi, scipy.sparse
     C = _classes()
+    global _CSTYLE
+    _CSTYLE = case.get("cstyle", "function")
+    _SHARE.clear()
     kind, strip = case["model"], case["strip"]
     b = Built()
     b.kind = kind
@@ -569,9 +628,19 @@ def _wang_domain(t):
         s["n"] = 2
     return s
 
+def _copyable(spec):
+    k = spec["kind"]
+    if k == "mapped":
+        return _copyable(spec["inner"])
+    if k in ("cont1d", "discrete", "image2d", "cont2d", "user", "user_c1d"):
+        return True
+    return k == "step"          # (KLExpansion keeps a lazily filled cache among its attributes: a used and a fresh one differ)
+
 def _equal_copy(spec, ref, strip):
-    """an independently constructed geometry equal to the model's one (only for the grid-based kinds)"""
-    if spec["kind"] in ("cont1d", "discrete", "image2d", "cont2d", "step") and not spec.get("gradient"):
+    """an independently constructed geometry equal (==) to the model's one: grid-based kinds, user geometries and
+    MappedGeometry around them whose callables are the same / equal objects (functions, bound methods of one transform
+    object, one functools.partial, equal callable instances, numpy ufuncs)"""
+    if isinstance(spec, dict) and _copyable(spec):
         return build_geom(spec, ref, strip)
     return None
 
@@ -584,6 +653,7 @@ def _cfg(case, **kw):
     if case.get("shared_grid"):
         c["shared_grid"] = True
     c["strip"] = bool(case.get("strip"))
+    c["cstyle"] = case.get("cstyle", "function")
     if case.get("opscale", 1.0) != 1.0:
         c["opscale"] = "tiny" if case["opscale"] < 1 else "huge"
     c.update(kw)
@@ -591,6 +661,18 @@ def _cfg(case, **kw):
 
 def _flat(v):
     return np.asarray(v, dtype=float).reshape(-1)
+
+def _ro_view(a):
+    """the same values as a read-only, non-contiguous view (Fortran-ordered for 2-D): a write through the argument raises"""
+    a = np.asarray(a, dtype=float)
+    if a.ndim == 1:
+        buf = np.full(2 * a.size + 1, np.nan)
+        buf[1::2] = a
+        v = buf[1::2]
+    else:
+        v = np.asfortranarray(a)
+    v.setflags(write=False)
+    return v
 
 def _points(ref, rs, k):
     lo, hi = (0.5, 2.0) if ref.dom.positive_pars else (-1.0, 1.0)
@@ -611,10 +693,12 @@ def run_case(case, ctx):
         return
     dom_g, ran_g = b.dom_obj, b.ran_obj
     carriers = [("same_obj", dom_g)]
-    if case.get("carrier") == "equal_copy" and hasattr(b, "dom_spec"):
-        eq = _equal_copy(b.dom_spec, ref.dom, case["strip"])
-        if eq is not None:
-            carriers.append(("equal_copy", eq))
+    b.dom_eq = b.ran_eq = None
+    if hasattr(b, "dom_spec"):
+        b.dom_eq = _equal_copy(b.dom_spec, ref.dom, case["strip"])
+        b.ran_eq = b.dom_eq if b.same else _equal_copy(b.ran_spec, ref.ran, case["strip"])
+        if b.dom_eq is not None:
+            carriers.append(("equal_copy", b.dom_eq))
     argname = model._non_default_args[0]
     ctx.note("model", repr(type(model).__name__) + " %s -> %s" % (_label(case["dom"]), _label(case["ran"])))
     # ------------------------------------------------------------------ forward
@@ -627,7 +711,9 @@ def run_case(case, ctx):
         reps = [("nd_par", lambda: model.forward(p.copy()), "nd"),
                 ("nd_fun", lambda: model.forward(f.copy(), is_par=False), "nd"),
                 ("kw_par", lambda: model(**{argname: p.copy()}), "nd"),
-                ("kw_fun", lambda: model.forward(is_par=False, **{argname: f.copy()}), "nd")]
+                ("kw_fun", lambda: model.forward(is_par=False, **{argname: f.copy()}), "nd"),
+                ("nd_par_ro_view", lambda: model.forward(_ro_view(p)), "nd"),
+                ("nd_fun_ro_view", lambda: model.forward(_ro_view(f), is_par=False), "nd")]
         if isinstance(model, cuqi.model.LinearModel):
             reps.append(("matmul", lambda: model @ p.copy(), "nd"))
         for cname, cg in carriers:
@@ -755,7 +841,7 @@ def _expected_grad_refusal(b, wrep):
         return "range_geometry_not_identity"
     if not b.dom_ident and not b.ref.dom.has_gradient:
         return "domain_geometry_without_gradient"
-    if wrep.endswith("fun") and not b.ref.dom.has_fun2par:
+    if wrep.endswith("fun") and not b.ref.dom.has_fun2par:      # (nd_fun, cq_fun, eq_cq_fun)
         return "wrt_function_values_without_fun2par"
     return None
 
@@ -798,6 +884,14 @@ def _gradient_monitor(case, ctx, b, rs, rtol):
         wreps = {"nd_par": (lambda: p.copy(), True), "nd_fun": (lambda: f.copy(), False),
                  "cq_par": (lambda: CUQIarray(p.copy(), is_par=True, geometry=dom_g), True),
                  "cq_fun": (lambda: CUQIarray(f.copy(), is_par=False, geometry=dom_g), True)}
+        dreps["ro_view_nd_par"] = (lambda: _ro_view(d), True, "nd")
+        wreps["ro_view_nd_par"] = (lambda: _ro_view(p), True)
+        wreps["ro_view_nd_fun"] = (lambda: _ro_view(f), False)
+        if b.ran_eq is not None:
+            dreps["eq_cq_fun"] = (lambda: CUQIarray(dfun.copy(), is_par=False, geometry=b.ran_eq), True, "cq")
+        if b.dom_eq is not None:
+            wreps["eq_cq_par"] = (lambda: CUQIarray(p.copy(), is_par=True, geometry=b.dom_eq), True)
+            wreps["eq_cq_fun"] = (lambda: CUQIarray(f.copy(), is_par=False, geometry=b.dom_eq), True)
         g_first = None
         for dname, (mkd, dflag, wrap) in dreps.items():
             for wname, (mkw, wflag) in wreps.items():
@@ -957,8 +1051,13 @@ def _history_monitor(case, ctx, b, rs, rtol):
 
     carriers = [("same_ndarray", lambda: x, True), ("cuqiarray_view" if shared else "cuqiarray_copy", lambda: xq, True),
                 ("fresh_copy", lambda: x.copy(), True), ("funvals_buffer", lambda: fbuf, False)]
+    if getattr(b, "dom_eq", None) is not None:
+        xq2 = CUQIarray(fbuf, is_par=False, geometry=b.dom_eq)    # function values carried by an equal copy of the geometry
+        carriers.append(("equal_copy_funvals_view", lambda: xq2, True))
     for cname, get, flag in carriers:
         grad_ok = grad_nd_ok if flag else grad_fun_ok
+        if cname == "equal_copy_funvals_view":
+            grad_ok = grad_nd_ok and grad_fun_ok
         # consecutive forward calls on the same object, updated in place in between
         for k in range(steps):
             if k > 0:
